@@ -1,4 +1,4 @@
-(* Boolean deciders for the flat fragment (flat_struct, adm) with soundness, so that membership of concrete shipped structs and
+(* Boolean deciders for the fragment (struct_ok, adm) with soundness, so that membership of concrete shipped structs and
    values is a kernel computation. *)
 From Symv Require Import Base.Bytes Base.PyOps Cats.Layout Cats.LayoutInst Cats.StructProofs Cats.StructRoundTrip.
 From Coq Require Import Lia ZifyBool.
@@ -18,22 +18,36 @@ Proof.
   intros Hin. apply Bool.negb_true_iff in Hx. assert (existsb (String.eqb x) r = true) by (apply existsb_exists; exists x; split; [exact Hin | apply String.eqb_refl]). congruence.
 Qed.
 
+Lemma existsb_name_in n l : existsb (String.eqb n) l = true -> In n l.
+Proof. intros H. apply existsb_exists in H as (x & Hx & He). apply String.eqb_eq in He. now subst. Qed.
+
 Section S.
 Variable allfs : list field.
 
-Definition seenb (seen : list field) (f : field) (n : string) : bool :=
-  existsb (fun c => String.eqb (f_name c) n &&
-                    match classify tm allfs c with Some (MkCount _ g) => String.eqb (f_name g) (f_name f) | _ => false end) seen.
+Definition deps_okb (seen : list field) (proc : list string) (f : field) : bool :=
+  match classify tm allfs f with
+  | Some (MkArray _ n) | Some (MkBytes n) =>
+    existsb (fun c => String.eqb (f_name c) n &&
+                      match classify tm allfs c with Some (MkCount _ g) => String.eqb (f_name g) (f_name f) | _ => false end) seen
+  | Some (MkCondBytes n y) =>
+    existsb (fun c => String.eqb (f_name c) n &&
+                      match classify tm allfs c with Some (MkCountCond _ g y') => String.eqb (f_name g) (f_name f) && (y' =? y) | _ => false end) seen
+    && existsb (String.eqb n) proc
+  | Some (MkNamedSized t sfn) =>
+    existsb (fun c => String.eqb (f_name c) sfn &&
+                      match classify tm allfs c with Some (MkSizeof _ gn t') => String.eqb gn (f_name f) && String.eqb t' t | _ => false end) seen
+  | Some (MkCondNamed t cfn) =>
+    existsb (fun c => String.eqb (f_name c) cfn &&
+                      match classify tm allfs c with Some (MkComputed _ gn t' _) => String.eqb gn (f_name f) && String.eqb t' t | _ => false end) seen
+    && existsb (String.eqb cfn) proc
+  | Some _ => true
+  | None => false
+  end.
 
-Fixpoint orderedb (seen fs : list field) : bool :=
+Fixpoint orderedb (seen : list field) (proc : list string) (fs : list field) : bool :=
   match fs with
   | [] => true
-  | f :: r =>
-    match classify tm allfs f with
-    | Some (MkArray _ n) | Some (MkBytes n) => seenb seen f n
-    | Some _ => true
-    | None => false
-    end && orderedb (seen ++ [f]) r
+  | f :: r => deps_okb seen proc f && orderedb (seen ++ [f]) (f_name f :: proc) r
   end.
 
 Lemma bound_field_in c g : bound_field allfs c = Some g -> In g allfs.
@@ -45,18 +59,6 @@ Proof.
     + injection H as <-. now apply find_some in Hf as [Hf _].
     + apply find_some in H as [H _]. now apply in_rev in H.
   - apply find_some in H as [H _]. now apply in_rev in H.
-Qed.
-
-Lemma classify_count c i g : classify tm allfs c = Some (MkCount i g) -> bound_field allfs c = Some g.
-Proof.
-  unfold classify. destruct (f_cond c); [discriminate|]. destruct (is_sizeof c); [discriminate|]. destruct (is_computed c); [discriminate|].
-  destruct (f_type c) as [j|t|a]; try discriminate.
-  - destruct (it_size j <? 0); [discriminate|]. destruct (is_reserved c).
-    + destruct (f_value c); try discriminate. destruct (bound_field allfs c); discriminate.
-    + destruct (bound_field allfs c) as [g'|]; [|discriminate].
-      destruct (f_array g'); [|discriminate]. destruct (f_cond g'); [discriminate|]. destruct (_ && _); [|discriminate]. intros H; now injection H as _ ->.
-  - destruct (_ && _); [|discriminate]. destruct (bound_field allfs c); [discriminate|]. destruct (size_fields_of allfs c); discriminate.
-  - destruct (bound_field allfs c); [discriminate|]. destruct (a_size a); try discriminate. destruct (is_byte_array a); [discriminate|]. destruct (_ && _); discriminate.
 Qed.
 
 Hypothesis names_nodup : NoDup (map f_name allfs).
@@ -71,20 +73,53 @@ Proof.
   - now apply IH.
 Qed.
 
-Lemma seenb_sound seen f n : In f allfs -> seenb seen f n = true -> size_member_seen tm allfs seen f n.
+Lemma deps_okb_sound seen proc f : In f allfs -> deps_okb seen proc f = true -> deps_ok tm allfs seen proc f.
 Proof.
-  intros Hf H. unfold seenb in H. apply existsb_exists in H as (c & Hc & H). apply Bool.andb_true_iff in H as [Hn Hk].
-  apply String.eqb_eq in Hn. destruct (classify tm allfs c) as [[| |i g| | |]|] eqn:Hcl; try discriminate.
-  apply String.eqb_eq in Hk. exists c, i. repeat split; [exact Hc | exact Hn|].
-  rewrite (same_name_same_field f g Hf (bound_field_in c g (classify_count c i g Hcl)) Hk) in Hcl. exact Hcl.
+  intros Hf H. unfold deps_okb in H. unfold deps_ok. destruct (classify tm allfs f) as [k|] eqn:Hk; [|discriminate].
+  assert (Hcount : forall n, existsb (fun c => String.eqb (f_name c) n &&
+                      match classify tm allfs c with Some (MkCount _ g) => String.eqb (f_name g) (f_name f) | _ => false end) seen = true ->
+                    size_member_seen tm allfs seen f n).
+  { intros n Hex. apply existsb_exists in Hex as (c & Hc & Hex). apply Bool.andb_true_iff in Hex as [Hn Hg].
+    apply String.eqb_eq in Hn. destruct (classify tm allfs c) as [[| |i g| | | | | | | | |]|] eqn:Hcl; try discriminate.
+    apply String.eqb_eq in Hg. exists c, i. repeat split; [exact Hc | exact Hn|].
+    pose proof (classify_facts tm allfs c _ Hcl) as F. cbn [kind_facts] in F. destruct F as (_ & _ & _ & _ & Hb & _).
+    now rewrite (same_name_same_field f g Hf (bound_field_in c g Hb) Hg) in Hcl. }
+  destruct k; try exact I.
+  - now apply Hcount.
+  - now apply Hcount.
+  - apply existsb_exists in H as (c & Hc & Hex). apply Bool.andb_true_iff in Hex as [Hn Hg]. apply String.eqb_eq in Hn.
+    destruct (classify tm allfs c) as [[| | | | | | |i gn t'| | | |]|] eqn:Hcl; try discriminate.
+    apply Bool.andb_true_iff in Hg as [Hg Ht]. apply String.eqb_eq in Hg, Ht. subst. now exists c, i.
+  - apply Bool.andb_true_iff in H as [H Hp]. split; [|now apply existsb_name_in].
+    apply existsb_exists in H as (c & Hc & Hex). apply Bool.andb_true_iff in Hex as [Hn Hg]. apply String.eqb_eq in Hn.
+    destruct (classify tm allfs c) as [[| | | | | | | | |i gn t' d| |]|] eqn:Hcl; try discriminate.
+    apply Bool.andb_true_iff in Hg as [Hg Ht]. apply String.eqb_eq in Hg, Ht. subst. now exists c, i, d.
+  - apply Bool.andb_true_iff in H as [H Hp]. split; [|now apply existsb_name_in].
+    apply existsb_exists in H as (c & Hc & Hex). apply Bool.andb_true_iff in Hex as [Hn Hg]. apply String.eqb_eq in Hn.
+    destruct (classify tm allfs c) as [[| | |i g y'| | | | | | | |]|] eqn:Hcl; try discriminate.
+    apply Bool.andb_true_iff in Hg as [Hg Hy]. apply String.eqb_eq in Hg. assert (y' = y) by lia. subst y'.
+    exists c, i. repeat split; [exact Hc | exact Hn|].
+    pose proof (classify_facts tm allfs c _ Hcl) as F. cbn [kind_facts] in F. destruct F as (_ & _ & _ & _ & Hb & _).
+    now rewrite (same_name_same_field f g Hf (bound_field_in c g Hb) Hg) in Hcl.
 Qed.
 
-Lemma orderedb_sound : forall fs seen, (forall f, In f fs -> In f allfs) -> orderedb seen fs = true -> ordered tm allfs seen fs.
+Lemma orderedb_sound : forall fs seen proc, (forall f, In f fs -> In f allfs) -> orderedb seen proc fs = true -> ordered tm allfs seen proc fs.
 Proof.
-  induction fs as [|f r IH]; intros seen Hin H; [constructor|]. cbn [orderedb] in H. apply Bool.andb_true_iff in H as [Hf Hr].
-  constructor; [| |apply IH; [intros g Hg; apply Hin; now right | exact Hr]].
-  - intros a n Hk. rewrite Hk in Hf. apply seenb_sound; [apply Hin; now left | exact Hf].
-  - intros n Hk. rewrite Hk in Hf. apply seenb_sound; [apply Hin; now left | exact Hf].
+  induction fs as [|f r IH]; intros seen proc Hin H; [constructor|]. cbn [orderedb] in H. apply Bool.andb_true_iff in H as [Hf Hr].
+  constructor; [apply deps_okb_sound; [apply Hin; now left | exact Hf] | apply IH; [intros g Hg; apply Hin; now right | exact Hr]].
+Qed.
+
+Definition pos_memberb (f : field) : bool :=
+  match classify tm allfs f with
+  | Some (MkNamed _) | Some (MkNamedSized _ _) => true
+  | Some k => match int_of_kind k with Some i => 0 <? it_size i | None => false end
+  | None => false
+  end.
+
+Lemma pos_memberb_sound f : pos_memberb f = true -> pos_member tm allfs f.
+Proof.
+  unfold pos_memberb, pos_member. destruct (classify tm allfs f) as [k|]; [|discriminate].
+  destruct k; cbn [int_of_kind]; try discriminate; try (intros; exact I); intros H; lia.
 Qed.
 End S.
 
@@ -98,12 +133,8 @@ Definition flat_structb (s : struct) : bool :=
   && match s_disp s with SdAbstract => false | _ => true end
   && nodup_names (map f_name allfs)
   && forallb (fun f => negb (String.eqb (f_name f) "size")) allfs
-  && orderedb allfs [] allfs
-  && existsb (fun f => match classify tm allfs f with
-                       | Some (MkNamed _) => true
-                       | Some k => match int_kind k with Some i => 0 <? it_size i | None => false end
-                       | None => false
-                       end) allfs.
+  && orderedb allfs [] [] allfs
+  && existsb (pos_memberb allfs) allfs.
 
 (* the lookup must return the struct itself (names are unique in a validated schema) *)
 Definition self_lookup (s : struct) : Prop := lookup tm (s_name s) = Some (DStruct s).
@@ -122,11 +153,7 @@ Proof.
     rewrite Hn in *. discriminate.
   - apply orderedb_sound; [exact Hnd | auto | assumption].
   - match goal with Hx : existsb _ _ = true |- _ => apply existsb_exists in Hx as (f & Hf & Hex) end.
-    exists f. split; [exact Hf|]. destruct (classify tm (struct_fields_nc s) f) as [[i|i n|i g|t|n|a n]|] eqn:Hk; try discriminate.
-    + left. exists (MkInt i), i. cbn [int_kind] in Hex. repeat split. lia.
-    + left. exists (MkReserved i n), i. cbn [int_kind] in Hex. repeat split. lia.
-    + left. exists (MkCount i g), i. cbn [int_kind] in Hex. repeat split. lia.
-    + right. exists t. reflexivity.
+    exists f. split; [exact Hf | now apply pos_memberb_sound].
 Qed.
 
 (* decidable equality of members (for "the child's members are the parent's members followed by its own") *)
@@ -155,7 +182,7 @@ Definition based_structb (s : struct) : bool :=
         && opt_is_size (struct_size_attr a) && opt_is_size (struct_size_attr s)
         && String.eqb (f_name f0) "size" && (0 <? it_size i) && it_unsigned i
         && negb (is_reserved f0) && is_settable allfs f0
-        && orderedb allfs [] hrest && orderedb allfs hrest own
+        && orderedb allfs [] ["size"] hrest && orderedb allfs hrest [] own
       | _, _ => false
       end
     | [] => false
@@ -185,23 +212,6 @@ Proof.
   - apply orderedb_sound; [exact Hnd_all | intros f Hf; rewrite Hall; right; apply in_or_app; now right | assumption].
 Qed.
 
-Definition pos_memberb (allfs : list field) (f : field) : bool :=
-  match classify tm allfs f with
-  | Some (MkNamed _) => true
-  | Some k => match int_kind k with Some i => 0 <? it_size i | None => false end
-  | None => false
-  end.
-
-Lemma pos_memberb_sound allfs f : pos_memberb allfs f = true -> pos_member tm allfs f.
-Proof.
-  unfold pos_memberb, pos_member. intros Hex.
-  destruct (classify tm allfs f) as [[i|i n|i g|t|n|a n]|] eqn:Hk; try discriminate.
-  + left. exists (MkInt i), i. cbn [int_kind] in Hex. repeat split. lia.
-  + left. exists (MkReserved i n), i. cbn [int_kind] in Hex. repeat split. lia.
-  + left. exists (MkCount i g), i. cbn [int_kind] in Hex. repeat split. lia.
-  + right. exists t. reflexivity.
-Qed.
-
 (* parent without @size member (NEM) *)
 Definition based_nosizeb (s : struct) : bool :=
   match base_struct tm s with
@@ -214,7 +224,7 @@ Definition based_nosizeb (s : struct) : bool :=
     && nodup_names (map f_name (hfs ++ own))
     && struct_size_attr_none a && struct_size_attr_none s
     && forallb (fun f => negb (String.eqb (f_name f) "size")) allfs
-    && orderedb allfs [] hfs && orderedb allfs hfs own
+    && orderedb allfs [] [] hfs && orderedb allfs hfs [] own
     && existsb (pos_memberb allfs) allfs
   | None => false
   end.
@@ -250,18 +260,26 @@ Proof.
 Qed.
 
 (* values *)
+Definition opt_struct_ofb (ab : string -> value -> bool) (t : string) (v : value) : bool :=
+  match v with VNull => true | VStruct _ _ => ab t v | _ => false end.
+
 Definition member_typedb (allfs : list field) (admb : string -> value -> bool) (self : value) (f : field) : bool :=
   match classify tm allfs f with
   | Some (MkInt _) => match vget self (f_name f) with Some (VInt _) => true | _ => false end
   | Some (MkReserved _ _) => true
   | Some (MkCount _ g) => match vget self (f_name g) with Some (VBytes _) | Some (VArr _) => true | _ => false end
-  | Some (MkNamed t) => match vget self (f_name f) with Some VNull => false | Some v => admb t v | None => false end
+  | Some (MkCountCond _ g _) => match vget self (f_name g) with Some (VBytes _) | Some VNull => true | _ => false end
+  | Some (MkNamed t) | Some (MkNamedSized t _) => match vget self (f_name f) with Some VNull => false | Some v => admb t v | None => false end
   | Some (MkBytes _) => match vget self (f_name f) with Some (VBytes _) => true | _ => false end
   | Some (MkArray a _) =>
     match vget self (f_name f), elem_name a with
-    | Some (VArr l), Some et => (Z.of_nat (length l) <=? 65536) && forallb (admb et) l && negb (contents_abstract tm a)
+    | Some (VArr l), Some et => (Z.of_nat (length l) <=? 65536) && forallb (admb et) l
     | _, _ => false
     end
+  | Some (MkSizeof _ gn t) => match vget self gn with Some VNull => false | Some v => admb t v | None => false end
+  | Some (MkComputed _ gn t _) => match vget self gn with Some v => opt_struct_ofb admb t v | None => false end
+  | Some (MkCondNamed t _) => match vget self (f_name f) with Some v => opt_struct_ofb admb t v | None => false end
+  | Some (MkCondBytes _ y) => match vget self (f_name f) with Some VNull => true | Some (VBytes b) => negb (Z.of_nat (length b) =? y) | _ => false end
   | None => false
   end.
 
@@ -300,7 +318,6 @@ Fixpoint admb (n : nat) (t : string) (v : value) : bool :=
   | _ => false
   end.
 
-
 Lemma lookup_struct_self cls s : lookup_struct tm cls = Some s -> s_name s = cls /\ self_lookup s.
 Proof.
   unfold lookup_struct, self_lookup, lookup. intros H.
@@ -309,21 +326,31 @@ Proof.
   pose proof (find_some _ _ Hf) as [_ Hn]. apply String.eqb_eq in Hn. cbn [decl_name] in Hn. split; [exact Hn|]. now rewrite Hn.
 Qed.
 
+Lemma opt_struct_ofb_sound (ab : string -> value -> bool) (ap : string -> value -> Prop) t v :
+  (forall t v, ab t v = true -> ap t v) -> opt_struct_ofb ab t v = true -> opt_struct_of ap t v.
+Proof. intros Hab H. unfold opt_struct_of. destruct v; try discriminate; [right; split; [reflexivity | now apply Hab] | now left]. Qed.
+
 Lemma member_typedb_sound allfs (ab : string -> value -> bool) (ap : string -> value -> Prop) self f :
   (forall t v, ab t v = true -> ap t v) -> member_typedb allfs ab self f = true -> member_typed tm allfs ap self f.
 Proof.
   intros Hab H. unfold member_typedb in H. unfold member_typed.
-  destruct (classify tm allfs f) as [[i|i n|i g|t|n|a n]|]; try discriminate.
+  destruct (classify tm allfs f) as [k|]; [|discriminate]. destruct k.
   - destruct (vget self (f_name f)) as [[z| | | |]|]; try discriminate. eauto.
   - exact I.
   - destruct (vget self (f_name g)) as [[|b|l| |]|]; try discriminate; [left|right]; eauto.
+  - destruct (vget self (f_name g)) as [[|b|l| |]|]; try discriminate; [right|left]; eauto.
   - destruct (vget self (f_name f)) as [v|]; [|discriminate]. exists v. destruct v; try discriminate; (split; [reflexivity|split; [discriminate|now apply Hab]]).
   - destruct (vget self (f_name f)) as [[|b| | |]|]; try discriminate. eauto.
   - destruct (vget self (f_name f)) as [[| |l| |]|]; try discriminate. destruct (elem_name a) as [et|]; [|discriminate].
-    apply Bool.andb_true_iff in H as [H Hna]. apply Bool.andb_true_iff in H as [Hlen Hall]. apply Bool.negb_true_iff in Hna.
+    apply Bool.andb_true_iff in H as [Hlen Hall].
     exists l. split; [reflexivity|]. split.
     + unfold array_fuel. apply Nat2Z.inj_le. rewrite Z2Nat.id by lia. lia.
-    + split; [|exact Hna]. rewrite forallb_forall in Hall. apply Forall_forall. intros x Hx. apply Hab, Hall, Hx.
+    + rewrite forallb_forall in Hall. apply Forall_forall. intros x Hx. apply Hab, Hall, Hx.
+  - destruct (vget self gn) as [v|]; [|discriminate]. exists v. destruct v; try discriminate; (split; [reflexivity|split; [discriminate|now apply Hab]]).
+  - destruct (vget self (f_name f)) as [v|]; [|discriminate]. exists v. destruct v; try discriminate; (split; [reflexivity|split; [discriminate|now apply Hab]]).
+  - destruct (vget self gn) as [v|]; [|discriminate]. exists v. split; [reflexivity | now apply (opt_struct_ofb_sound ab)].
+  - destruct (vget self (f_name f)) as [v|]; [|discriminate]. exists v. split; [reflexivity | now apply (opt_struct_ofb_sound ab)].
+  - destruct (vget self (f_name f)) as [[|b| | |]|]; try discriminate; [right; exists b; split; [reflexivity|lia] | now left].
 Qed.
 
 Lemma admb_sound : forall n t v, admb n t v = true -> adm tm n t v.
